@@ -125,7 +125,7 @@ void run_root(vfz::Dec& d, int root, const uint8_t* data, size_t size) {
     desc += (round ? " | refill in place: " : " value ") + last;
     check_value(*subject, g, pout, pin, desc, root);
     if (g.nkinds() >= 3 && g.nested_ld) nt = true;
-    if (g.budget < 50000) vfz::label("amplified_payload");
+    if (g.budget < 40000) vfz::label("amplified_payload");
     if (g.kinds & (1u << K_PTR)) vfz::label("has_nonnull_ptr");
   }
   vfz::label(root_names()[root]);
@@ -138,6 +138,7 @@ void run_root(vfz::Dec& d, int root, const uint8_t* data, size_t size) {
 extern "C" int LLVMFuzzerTestOneInput(const uint8_t* data, size_t size) {
   vfz::begin_case(RULE);
   quiet_protobuf();
+  strip_witness_prefix(data, size);
   vfz::Dec d(data, size);
   int root = d.u8() % ROOTS;
   with_root(root, [&](auto tag) { run_root<typename decltype(tag)::type>(d, root, data, size); });
